@@ -70,10 +70,15 @@ def run(tier, seed):
     # or through the observed call itself, and (b) directly after a few single predecessors
     pool = regress + [DECLARES_NODE]
     for t in regress + [REJECTED[-1]]:
+        long_api = rnd.choice(['compile', 'cnl_to_json'])
         for api in (['compile', 'cnl_to_json'] if tier == 'quick' else APIS):
             others = [h for h in pool if h != t]
             last = [api, t]
-            for via in (('compile', api) if tier != 'quick' else (rnd.choice(['compile', api]),)):
+            if tier == 'quick' and api != long_api:
+                vias = ()                      # quick tier: the long history of a text through one of the two observed calls only
+            else:
+                vias = ('compile', api) if tier != 'quick' else (rnd.choice(['compile', api]),)
+            for via in vias:
                 order = list(others)
                 rnd.shuffle(order)
                 jobs.append(dict(with_functions=False, calls=[[via, h] for h in order] + [last], last=last, construct_first=rnd.random() < 0.5))
